@@ -6,6 +6,8 @@ from vf import families
 from vf.harness.c08 import has_eof
 
 PROPERTY = "C09"
+# random 4..6-member definitions with several forking members can explode: cap them so that the budget reaches the other families
+SETTINGS_THOROUGH = {"case_budget": 45.0, "max_paths": 20000}
 BOUNDS = {"all": "definitions of the C02 family; start offset p = A*q symbolic with q < 2^20/A (A = structure alignment in aligned "
                  "mode, else 1), unconstrained junk before p, slack bytes after the extent; two consecutive parses on one stream; input "
                  "kinds bytes/bytearray/memoryview/stream x call forms T(x), T.read(x), T.reads(x), cs.read(name, x)"}
